@@ -410,6 +410,20 @@ func (c *C07Case) viaCompiler() (*Violation, string) {
 	if c.FontID == "TEST" {
 		return nil, ""
 	}
+	// distractors: whatever the call itself says wins over the command-line defaults
+	if (len(c.Items)+c.MaxLen)%2 == 0 {
+		switch c.Plumb {
+		case 2, 3, 4, 6:
+			o.MaxLen = c.MaxLen + 40
+			if c.MaxLen%3 == 0 && c.MaxLen > 8 {
+				o.MaxLen = c.MaxLen - 7
+			}
+		}
+		switch c.Plumb {
+		case 2, 3, 4:
+			o.FontID = "G"
+		}
+	}
 	if c.Overlap == 0 && (c.Plumb == 2 || c.Plumb == 3 || c.Plumb == 4) {
 		// a named cursorOverlapWidth of 0 means "use the font's": make the font agree
 		font.Overlap = 0
@@ -448,7 +462,7 @@ func (c *C07Case) viaCompiler() (*Violation, string) {
 
 // ---- generator ----
 
-var c07Letters = []string{"a", "b", "c", "i", "m", "W", "n", "l", "p", "N", `\e`, "é", "ß", "日", ".", ",", "!", "'", "-", "0", "1", "}"}
+var c07Letters = []string{"a", "b", "c", "i", "m", "W", "n", "l", "p", "N", `\e`, "\u00a0", "\u3000", "i\ta", "é", "ß", "日", ".", ",", "!", "'", "-", "0", "1", "}"}
 var c07Codes = []string{"{PLAYER}", "{COLOR RED}", "{STR_VAR_1}", "{PAUSE 10}", "{PKMN}"}
 
 func genC07(t *rapid.T) *C07Case {
@@ -548,7 +562,7 @@ func TestC07_Regress(t *testing.T) { runRegress(t, "C07") }
 
 func TestC07_Format(t *testing.T) {
 	st := stat("C07")
-	st.SetRule("texts of 1-14 items (words over ASCII and multi-byte letters, punctuation and {CONTROL} codes with and without arguments glued inside words; explicit \\n \\l \\p \\N glued or spaced; runs of spaces, line break characters as separators) with a generated font table (per-glyph widths 0-12, optional default, control-code and space widths incl. 0) or the TEST font; maxLineLength = width of a random run of words -1/0/+1 (optionally + overlap), numLines 1-4, cursor overlap 0 / small / wider than a word; 3 in 4 cases call FormatText directly (half of them on a FontConfig that has just formatted the same text with another font), 1 in 4 go through text T { format(...) } with the parameters given positionally (both orders), by name, by font config (of the default font, or of the font named by a positional / named fontId while another font is the default), or by the CLI defaults. oracle: overlap 0 => output equals the harness' greedy reference formatter; always => envelope (words and explicit breaks in order and unchanged, only single spaces, line width <= max resp. max - overlap on prompt lines unless a single word, every inserted break necessary, \\n / \\l discipline with \\p reset). non-trivial = >= 1 inserted break and a line within 1 pixel of its limit; distinct by (text, parameters)")
+	st.SetRule("texts of 1-14 items (words over ASCII and multi-byte letters incl. no-break / ideographic space and TAB - which are not separators -, punctuation and {CONTROL} codes with and without arguments glued inside words; explicit \\n \\l \\p \\N glued or spaced; runs of spaces, line break characters as separators) with a generated font table (per-glyph widths 0-12, optional default, control-code and space widths incl. 0) or the TEST font; maxLineLength = width of a random run of words -1/0/+1 (optionally + overlap), numLines 1-4, cursor overlap 0 / small / wider than a word; 3 in 4 cases call FormatText directly (half of them on a FontConfig that has just formatted the same text with another font), 1 in 4 go through text T { format(...) } with the parameters given positionally (both orders), by name, by font config (of the default font, or of the font named by a positional / named fontId while another font is the default), or by the CLI defaults (which an explicit parameter of the call must override: half of the explicit variants run with other -l / -f defaults). oracle: overlap 0 => output equals the harness' greedy reference formatter; always => envelope (words and explicit breaks in order and unchanged, only single spaces, line width <= max resp. max - overlap on prompt lines unless a single word, every inserted break necessary, \\n / \\l discipline with \\p reset). non-trivial = >= 1 inserted break and a line within 1 pixel of its limit; distinct by (text, parameters)")
 	st.Assume("backslashes occur only as the four break codes; every '{' is closed and braces are not nested (a stray '}' is an ordinary character)", "the cursor overlap is demanded on lines ending in \\p, or in \\l at paragraph line index >= numLines-1 (weakest reading)", "a named/positional parameter value <= 0 means 'use the font config value'")
 	runRapid(t, "C07", "TestC07_Format", genC07, checkC07, c07Src)
 }
